@@ -280,8 +280,10 @@ def main(argv=None):
         "verdict": "violated" if violations else ("inconclusive" if inconclusive else "held"),
     }
     if not a.replay:
-        os.makedirs(os.path.join(VERIF, "evidence"), exist_ok=True)
-        with open(os.path.join(VERIF, "evidence", f"{pid}.json"), "w") as fh:
+        # trial runs against a scratch tree (LCM_REPO set) must never overwrite the evidence
+        evdir = os.path.join(VERIF, "evidence") if os.path.abspath(REPO) == "/repo" else os.path.join(VERIF, ".run", "trial_evidence")
+        os.makedirs(evdir, exist_ok=True)
+        with open(os.path.join(evdir, f"{pid}.json"), "w") as fh:
             json.dump(evidence, fh, indent=1, default=str)
 
     # ------------------------------------------------------------------ report
